@@ -756,7 +756,11 @@ pub fn expected_display(k: Kind, pr: &Params) -> String {
     }
 }
 
-/// Compile-time part of C10: every indicator instantiated on the minimal-trait bar types.
+/// Every indicator instantiated on the minimal-trait bar types. Only compiled with the (off by default)
+/// feature `trait_probe`: a change of a trait bound must not stop the harness from building — that would turn
+/// every check into "inconclusive" instead of letting C10's perturbation twin report the violation at run time
+/// (found with seeded change C10-m16, DESIGN section 8).
+#[cfg(feature = "trait_probe")]
 #[allow(dead_code)]
 pub fn minimal_trait_instantiation() -> f64 {
     let c = CloseOnly(1.0);
